@@ -46,6 +46,8 @@ pub struct GuardedSer {
     /// The source value re-read after the call.
     pub after: Val,
     pub protected_blocks: usize,
+    /// The source value differs from what it was before the call.
+    pub changed: bool,
 }
 
 pub trait Root: Send + Sync {
@@ -248,7 +250,7 @@ macro_rules! root {
                     // allocator: do not touch or drop it
                     std::mem::forget(x);
                 }
-                $crate::root::GuardedSer { result, protected_hits: hits, after, protected_blocks: addrs.len() }
+                { let changed = hits == 0 && after != *v; $crate::root::GuardedSer { result, protected_hits: hits, after, protected_blocks: addrs.len(), changed } }
             }
             fn full(&self, rd: &mut $crate::sink::IoReader) -> Result<model::Val, $crate::outcome::Fail<$crate::outcome::DeErr>> {
                 use epserde::deser::Deserialize;
